@@ -59,6 +59,12 @@ DoCreateLoan(l) ==
 DoRepayLoan(j) == ApiStep("repay_loan", j, RepayLoanI(S, j, "repay"))
 \* Exchange.get_open_orders(): observable only through the open-list bookkeeping
 \* (the harness lists all open orders and then the open orders of every pair: 1 + NPairs traversals)
+\* MarginLoans.set_conditions between two requests: the conditions in force change (tighter or looser requirement,
+\* other interest terms); loans already granted keep their interest terms
+DoSetCond(x, w) ==
+  /\ C.lendMode = "margin" /\ C.condAlt[x] # C.cond[x]
+  /\ SetCond(S, x, w) # S
+  /\ ApiStep("set_cond", [sym |-> x, which |-> w], [ok |-> TRUE, err |-> "", s |-> SetCond(S, x, w)])
 DoListOpen == ApiStep("get_open_orders", 1 + NPairs, [ok |-> TRUE, err |-> "", s |-> TouchN(S, 1 + NPairs)])
 
 Next == \/ \E b \in BarSet : \E dt \in TimeSteps \cup {0} : BarValid(b) /\ DoBar(b, dt)
@@ -67,6 +73,7 @@ Next == \/ \E b \in BarSet : \E dt \in TimeSteps \cup {0} : BarValid(b) /\ DoBar
         \/ \E l \in LoanReqSet : DoCreateLoan(l)
         \/ \E j \in 1..(Len(S.loans) + 1) : DoRepayLoan(j)
         \/ DoListOpen
+        \/ \E x \in Syms : \E w \in {"alt", "base"} : DoSetCond(x, w)
 Spec == Init /\ [][Next]_vars
 
 (* ======================= invariants (state) ============================= *)
@@ -121,6 +128,7 @@ Reach_AutoRepaid    == ~(\E j \in 1..Len(S.loans) : S.loans[j].cause = "autorepa
 Reach_Rollback      == ~(\E j \in 1..Len(S.loans) : S.loans[j].cause = "rollback")
 Reach_FeeCharged    == ~(\E i \in 1..Len(S.orders) : S.orders[i].fee > 0)
 Reach_StopHit       == ~(\E i \in 1..Len(S.orders) : S.orders[i].stopHit /\ S.orders[i].filled = 0)
+Reach_CondChanged   == ~(S.cond # C.cond /\ \E j \in 1..Len(S.loans) : S.loans[j].open /\ S.loans[j].c # S.cond[S.loans[j].sym])
 Reach_MarginRefused == ~(call.kind = "create_loan" /\ ~call.ok /\ call.err = "nebal")
 
 (* ---- behaviour generator ----------------------------------------------- *)
